@@ -5,6 +5,7 @@ every schedule without changing its result.  Definitions and lemmas.
 -/
 import VaxisModel.Props.C08Sched
 import VaxisModel.Lemmas.ParserRunSchedNormal
+import VaxisModel.Model.ParserRunSched
 
 namespace VaxisModel.Lemmas.ParserRunSchedGroup
 open VaxisModel.Model.ParserTable VaxisModel.Model.Parser VaxisModel.Model.ParserRun VaxisModel.Model.ParserRunFine
@@ -655,5 +656,251 @@ theorem cbNorm_readAdj (T : Table) (hT : TimerOk T) (P : FSys → Prop) : ∀ (l
       by_cases hr : isRead l = true
       · rw [if_pos hr] at hra ⊢; exact i2 hra.1
       · rw [if_neg hr]
+
+/-! ### a grouped schedule is the expansion of a schedule of harness labels -/
+
+open VaxisModel.Model.ParserRunSched
+
+/-- The harness label a statement (the first of its group) belongs to. -/
+def sl : FLabel → SLabel
+  | .closeSig => .close
+  | .readRet i => .read i
+  | .main => .main
+  | .expire => .expire
+  | .cb k => .cb k
+
+/-- The statement opens a group of two. -/
+def pairs (f : FSys) (l : FLabel) : Bool := isRead l || (openK f l).isSome
+
+/-- The schedule of harness labels of a grouped schedule of statements (recursion along the run; the
+    flag says that the statement is the second of its group: its label has been produced already). -/
+def toS (T : Table) : Bool → FSys → List FLabel → List SLabel
+  | _, _, [] => []
+  | true, f, l :: ls =>
+    match FSys.step T f l with
+    | some (f', _) => toS T false f' ls
+    | none => []
+  | false, f, l :: ls =>
+    match FSys.step T f l with
+    | some (f', _) => sl l :: toS T (pairs f l) f' ls
+    | none => []
+
+theorem expand_cb (f : FSys) (k : Nat) : expand f (.cb k) = if opens f k then [.cb k, .cb k] else [.cb k] := by
+  cases hk : f.cbs[k]? with
+  | none => simp [expand, opens, hk]
+  | some c =>
+    obtain ⟨g, pc⟩ := c
+    cases pc <;> simp [expand, opens, hk]
+
+theorem srun_bridge (T : Table) (f : FSys) (x : SLabel) (es rest : List FLabel) (s' : List SLabel)
+    (hx : sstep T f x = FSys.run T f es)
+    (hrest : ∀ f1 o1, FSys.run T f es = some (f1, o1) → srun T f1 s' = FSys.run T f1 rest) :
+    srun T f (x :: s') = FSys.run T f (es ++ rest) := by
+  simp only [srun, hx, VaxisModel.Props.C08Sched.run_append]
+  cases h : FSys.run T f es with
+  | none => rfl
+  | some r =>
+    obtain ⟨f1, o1⟩ := r
+    simp only [seqBind, hrest f1 o1 h]
+    cases FSys.run T f1 rest with
+    | none => rfl
+    | some r2 => rfl
+
+/-- A statement other than a read return does not leave the main goroutine at `readDone`. -/
+theorem not_readDone_step (T : Table) (f f' : FSys) (l : FLabel) (o : List Seq)
+    (hs : FSys.step T f l = some (f', o)) (hr : isRead l = false) (hnd : ∀ i, f.mpc ≠ .readDone i) :
+    ∀ i, f'.mpc ≠ .readDone i := by
+  cases l with
+  | readRet i => cases hr
+  | closeSig => simp only [FSys.step, Option.some.injEq, Prod.mk.injEq] at hs; rw [← hs.1]; exact hnd
+  | expire =>
+    simp only [FSys.step] at hs
+    split at hs
+    · simp only [Option.some.injEq, Prod.mk.injEq] at hs; rw [← hs.1]; exact hnd
+    · cases hs
+  | cb k =>
+    simp only [FSys.step] at hs
+    have hm : f'.mpc = f.mpc := by
+      unfold cbStep at hs
+      split at hs
+      · cases hs
+      · rename_i g pc hk
+        cases pc <;> simp only at hs <;>
+          first
+            | (cases hs; done)
+            | (cases hs; rfl)
+            | (split at hs <;> first | (cases hs; done) | (cases hs; rfl))
+    rw [hm]; exact hnd
+  | main =>
+    simp only [FSys.step] at hs
+    unfold mainStep at hs
+    intro i hi
+    cases hpc : f.mpc with
+    | readDone j => exact hnd j hpc
+    | fin st v =>
+      rw [hpc] at hs
+      cases st <;> simp only at hs <;>
+        first
+          | (cases hs; cases hi; done)
+          | (split at hs <;> first | (cases hs; done) | (cases hs; cases hi; done))
+    | stepped b => rw [hpc] at hs; cases hs; cases b <;> cases hi
+    | _ =>
+      rw [hpc] at hs
+      simp only at hs
+      first
+        | (cases hs; done)
+        | (cases hs; cases hi; done)
+        | (split at hs <;> first | (cases hs; done) | (cases hs; cases hi; done))
+
+theorem sstep_single (T : Table) (f : FSys) (l : FLabel) (hr : isRead l = false) (ho : openK f l = none)
+    (hen : (FSys.step T f l).isSome = true) (hnd : ∀ i, f.mpc ≠ .readDone i) :
+    sstep T f (sl l) = FSys.run T f [l] := by
+  cases l with
+  | readRet i => cases hr
+  | closeSig => simp [sstep, sl, canRelease, expand]
+  | expire => simp [sstep, sl, canRelease, expand]
+  | cb k =>
+    have hno : opens f k = false := by
+      simp only [openK] at ho
+      cases h : opens f k with
+      | false => rfl
+      | true => rw [h] at ho; simp at ho
+    simp [sstep, sl, canRelease, expand_cb, hno]
+  | main =>
+    have hcr : canRelease f .main = true := by
+      simp only [canRelease]
+      cases hpc : f.mpc with
+      | inRead => simp [FSys.step, mainStep, hpc] at hen
+      | readDone i => exact absurd hpc (hnd i)
+      | _ => rfl
+    simp [sstep, sl, hcr, expand]
+
+theorem sstep_read (T : Table) (f : FSys) (i : Inp) : sstep T f (.read i) = FSys.run T f [.readRet i, .main] := by
+  simp [sstep, canRelease, expand]
+
+theorem sstep_cb_pair (T : Table) (f : FSys) (k : Nat) (h : opens f k = true) :
+    sstep T f (.cb k) = FSys.run T f [.cb k, .cb k] := by
+  simp [sstep, canRelease, expand_cb, h]
+
+theorem isSome_cons (T : Table) (f : FSys) (l : FLabel) (ls : List FLabel)
+    (h : (FSys.run T f (l :: ls)).isSome = true) :
+    ∃ f' o, FSys.step T f l = some (f', o) ∧ (FSys.run T f' ls).isSome = true := by
+  cases hs : FSys.step T f l with
+  | none => simp [FSys.run, hs] at h
+  | some x =>
+    obtain ⟨f', o⟩ := x
+    rw [run_cons_some T f f' l o ls hs] at h
+    refine ⟨f', o, rfl, ?_⟩
+    cases h2 : FSys.run T f' ls with
+    | none => rw [h2] at h; cases h
+    | some r => rfl
+
+/-- **A grouped schedule is the expansion of a schedule of harness labels**: `srun` of `toS` gives the
+    result of the statement schedule. -/
+theorem toS_run (T : Table) : ∀ (ls : List FLabel) (f : FSys), (FSys.run T f ls).isSome = true →
+    readAdj ls = true → cbAdj T f ls = true → (∀ i, f.mpc ≠ .readDone i) →
+    srun T f (toS T false f ls) = FSys.run T f ls
+  | [], _, _, _, _, _ => by simp [toS, srun, FSys.run]
+  | [l], f, hr, hra, hca, hnd => by
+    obtain ⟨f', o, hs, _⟩ := isSome_cons T f l [] hr
+    have hnr : isRead l = false := by
+      cases h : isRead l with
+      | false => rfl
+      | true => simp [readAdj, h, headIsMain] at hra
+    have hno : openK f l = none := by
+      cases h : openK f l with
+      | none => rfl
+      | some k => simp [cbAdj, hs, h] at hca
+    have := srun_bridge T f (sl l) [l] [] [] (sstep_single T f l hnr hno (by rw [hs]; rfl) hnd) (fun _ _ _ => rfl)
+    simpa [toS, hs] using this
+  | l :: l2 :: rest, f, hr, hra, hca, hnd => by
+    obtain ⟨f1, o1, hs1, hr1⟩ := isSome_cons T f l _ hr
+    obtain ⟨f2, o2, hs2, hr2⟩ := isSome_cons T f1 l2 _ hr1
+    have hrun2 : FSys.run T f [l, l2] = some (f2, o1 ++ (o2 ++ [])) := by simp only [FSys.run, hs1, hs2]
+    have hrun1 : FSys.run T f [l] = some (f1, o1 ++ []) := by simp only [FSys.run, hs1]
+    simp only [readAdj, Bool.and_eq_true] at hra
+    simp only [cbAdj, hs1, hs2, Bool.and_eq_true] at hca
+    by_cases hp : pairs f l = true
+    · have ht : toS T false f (l :: l2 :: rest) = sl l :: toS T false f2 rest := by simp only [toS, hs1, hs2, hp]
+      rw [ht]
+      have hl2 : l2 = l ∧ (isRead l = false) ∨ (isRead l = true ∧ l2 = .main) := by
+        cases hrd : isRead l with
+        | true =>
+          right
+          rw [hrd] at hra
+          simp only [if_true] at hra
+          refine ⟨rfl, ?_⟩
+          cases l2 <;> first | rfl | simp [headIsMain] at hra
+        | false =>
+          left
+          simp only [pairs, hrd, Bool.false_or] at hp
+          cases ho : openK f l with
+          | none => rw [ho] at hp; cases hp
+          | some k =>
+            obtain ⟨rfl, _⟩ := openK_spec f l k ho
+            rw [ho] at hca
+            simp only [List.head?_cons, decide_eq_true_eq, Option.some.injEq] at hca
+            exact ⟨hca.1, rfl⟩
+      have hnd2 : ∀ i, f2.mpc ≠ .readDone i := by
+        rcases hl2 with ⟨rfl, hnr⟩ | ⟨hrd, rfl⟩
+        · exact not_readDone_step T f1 f2 l2 o2 hs2 hnr (not_readDone_step T f f1 l2 o1 hs1 hnr hnd)
+        · cases l with
+          | readRet i =>
+            simp only [FSys.step] at hs1
+            split at hs1
+            · simp only [Option.some.injEq, Prod.mk.injEq] at hs1
+              rw [← hs1.1] at hs2
+              simp only [FSys.step, mainStep, Option.some.injEq, Prod.mk.injEq] at hs2
+              rw [← hs2.1]; intro j hj; cases hj
+            · cases hs1
+          | _ => cases hrd
+      have ih := toS_run T rest f2 hr2 hra.2.2 hca.2.2 hnd2
+      have hx : sstep T f (sl l) = FSys.run T f [l, l2] := by
+        rcases hl2 with ⟨rfl, hnr⟩ | ⟨hrd, rfl⟩
+        · simp only [pairs, hnr, Bool.false_or] at hp
+          cases ho : openK f l2 with
+          | none => rw [ho] at hp; cases hp
+          | some k =>
+            obtain ⟨rfl, hop⟩ := openK_spec f l2 k ho
+            exact sstep_cb_pair T f k hop
+        · cases l with
+          | readRet i => exact sstep_read T f i
+          | _ => cases hrd
+      exact srun_bridge T f (sl l) [l, l2] rest _ hx (fun f1' o1' h => by
+        rw [hrun2] at h
+        simp only [Option.some.injEq, Prod.mk.injEq] at h
+        rw [← h.1]; exact ih)
+    · have hp0 : pairs f l = false := by simpa using hp
+      have ht : toS T false f (l :: l2 :: rest) = sl l :: toS T false f1 (l2 :: rest) := by simp only [toS, hs1, hp0]
+      rw [ht]
+      have hp' : pairs f l = false := hp0
+      simp only [pairs, Bool.or_eq_false_iff] at hp'
+      have hno : openK f l = none := by
+        cases h : openK f l with
+        | none => rfl
+        | some k => rw [h] at hp'; simp at hp'
+      have ih := toS_run T (l2 :: rest) f1 hr1 (by simp only [readAdj, Bool.and_eq_true]; exact hra.2) (by simp only [cbAdj, hs2, Bool.and_eq_true]; exact hca.2)
+        (not_readDone_step T f f1 l o1 hs1 hp'.1 hnd)
+      exact srun_bridge T f (sl l) [l] (l2 :: rest) _ (sstep_single T f l hp'.1 hno (by rw [hs1]; rfl) hnd)
+        (fun f1' o1' h => by
+          rw [hrun1] at h
+          simp only [Option.some.injEq, Prod.mk.injEq] at h
+          rw [← h.1]; exact ih)
+
+/-- The full statement asked for (`grouped_normal_form`), NOT proved here: the grouped form can in
+    addition be chosen joint-normal in the sense of `Props/C08SchedNormal.lean` (every `expire` directly
+    behind the arming statement, every `closeSig` in front of a `select` or at the end).  Proved are the
+    four normal forms separately, `joint_normal_form` (expiry + `Close()`), `grouped_adjacent_form` (both
+    groupings) and `grouped_is_harness_schedule`; missing are the three preservation lemmas "`readNorm`
+    keeps `expNormal`/`closeNormal`" and "`cbNorm` keeps `expNormal`/`closeNormal`" (the carried
+    statement never has to pass between an arming statement and its `expire`, nor between a `closeSig`
+    and its `select`, in a schedule that is already normal — by the same case analysis as
+    `closeNorm_expNormal`). -/
+def grouped_normal_form_full : Prop :=
+  ∀ (ls : List FLabel) (r : FSys × List Seq), FSys.run handTable FSys.init ls = some r → r.1.mpc = .done →
+    (∀ c ∈ r.1.cbs, c.2 = .gone) →
+    ∃ ls', FSys.run handTable FSys.init ls' = some r ∧ ls'.Perm ls ∧ expNormal handTable false FSys.init ls' = true ∧
+      closeNormal handTable FSys.init ls' = true ∧ readAdj ls' = true ∧ cbAdj handTable FSys.init ls' = true ∧
+      srun handTable FSys.init (toS handTable false FSys.init ls') = some r
 
 end VaxisModel.Lemmas.ParserRunSchedGroup
